@@ -104,12 +104,30 @@ def rand_tree(rng, depth):
 
 VALS = {
     "I": [0, 1, -1, 2, 127, 255, 256, 32766, 32767, -32767, -32768, 181, 182, 7, -7],
-    "S": [0.0, -0.0, 1.0, -1.0, 0.5, 1.5, 2.5, -2.5, 16777216.0, 16777217.0, 3.4028235e38, 1e-45, 32767.5, -32768.5, 65536.0, float("inf"), float("nan"), 1e10],
+    "S": [0.0, -0.0, 1.0, -1.0, 0.5, 1.5, 2.5, -2.5, 16777216.0, 16777217.0, 0.1, 1.0 / 3.0, 3.4028235e38, 1e-45, 32767.5, -32768.5, 65536.0, float("inf"), float("nan"), 1e10],
     # the last five lie within half a Single ulp below / above an integer: a conversion that detours through Single moves them across it
     "D": [0.0, 1.0, -1.0, 0.5, 2.5, 2147483648.0, 1e308, 5e-324, 32767.9, -32768.1, 1e39, float("inf"), float("nan"), 0.1,
-          0.3 / 0.1, 7.99999999, 32767.9999, -32768.0001, 100.99999999],
+          0.3 / 0.1, 7.99999999, 32767.9999, -32768.0001, 100.99999999, 16777217.0, 1.0 / 3.0],
     "T": ["", "A", "B", "AB", "é"],
 }
+
+
+def f32(x):
+    try:
+        return struct.unpack("<f", struct.pack("<f", x))[0]
+    except OverflowError:
+        return float("inf") if x > 0 else float("-inf")
+
+
+def decode_num(tok):
+    t, r = tok[:2], tok[2:]
+    if t == "I:":
+        return float(int(r))
+    if t == "S:":
+        return struct.unpack("<f", struct.pack("<I", int(r, 16)))[0]
+    if t == "D:":
+        return struct.unpack("<d", struct.pack("<Q", int(r, 16)))[0]
+    return None
 
 
 def val(t, v):
@@ -166,8 +184,10 @@ def gen(tier, rng):
     for op in OPS2:
         for t1 in "ISDT":
             for t2 in "ISDT":
-                vs1 = VALS[t1] if tier == "thorough" else rng.sample(VALS[t1], min(len(VALS[t1]), 8))
-                vs2 = VALS[t2] if tier == "thorough" else rng.sample(VALS[t2], min(len(VALS[t2]), 8))
+                # comparisons between the two float types use every value: the interesting pairs differ only beyond Single precision
+                full = tier == "thorough" or (op in ("eq", "ne", "lt", "le", "gt", "ge") and {t1, t2} == {"S", "D"})
+                vs1 = VALS[t1] if full else rng.sample(VALS[t1], min(len(VALS[t1]), 8))
+                vs2 = VALS[t2] if full else rng.sample(VALS[t2], min(len(VALS[t2]), 8))
                 for a in vs1:
                     for b in vs2:
                         cases.append(Case("op2 %s %s %s" % (op, val(t1, a), val(t2, b)), tag="matrix", meta=("matrix", op, t1, t2)))
@@ -233,7 +253,25 @@ def monitor(case, r):
                 return None if r in ("ok I:0", "ok I:-1") else "relational: %s answers %s" % (case.line, r)
             return "type: %s must be TYPE MISMATCH, answers %s" % (case.line, r)
         if op in ("eq", "ne", "lt", "le", "gt", "ge"):
-            return None if r in ("ok I:0", "ok I:-1") else "relational: %s answers %s (must be 0 or -1)" % (case.line, r)
+            if r not in ("ok I:0", "ok I:-1"):
+                return "relational: %s answers %s (must be 0 or -1)" % (case.line, r)
+            # the value: the narrower operand is promoted to the wider type, never the other way round
+            a, b = decode_num(case.line.split(" ")[2]), decode_num(case.line.split(" ")[3])
+            if a is not None and b is not None and a == a and b == b and abs(a) != float("inf") and abs(b) != float("inf"):
+                if "D" in (t1, t2):
+                    x, y, eps = a, b, 2.220446049250313e-16
+                    diff = abs(x - y)
+                elif "S" in (t1, t2):
+                    x, y, eps = f32(a), f32(b), 1.1920929e-07
+                    diff = abs(f32(x - y)) if abs(x) != float("inf") and abs(y) != float("inf") else (0.0 if x == y else float("inf"))
+                else:
+                    x, y, eps, diff = a, b, 0, abs(a - b)
+                if diff == diff:
+                    want = {"eq": diff <= eps, "ne": not diff <= eps, "lt": x < y, "le": x <= y, "gt": x > y, "ge": x >= y}[op]
+                    if r != ("ok I:-1" if want else "ok I:0"):
+                        return "relational: %s answers %s; with the narrower operand promoted to the wider type the comparison is %s" % (
+                            case.line, r, "true" if want else "false")
+            return None
         if op in ("divint", "mod", "and", "or", "xor", "imp", "eqv"):
             return None if ty == "I" else "type: %s must be Integer, answers %s" % (case.line, r)
         want = max(PROMO[t1], PROMO[t2])
